@@ -129,14 +129,29 @@ func (m *ValueMap) Load(key string) (value *VMValue, ok bool) {
 	return e.load()
 }
 
+// Length returns the number of keys present in the map (deleted entries that still
+// occupy a slot in the read or dirty table are not counted).
 func (m *ValueMap) Length() int {
 	read, _ := m.read.Load().(readOnlyValueMap)
+	entries := read.m
 	if read.amended {
 		m.mu.Lock()
 		defer m.mu.Unlock()
-		return len(m.dirty)
+		// the dirty table holds every live entry while the read table is amended
+		read, _ = m.read.Load().(readOnlyValueMap)
+		if read.amended {
+			entries = m.dirty
+		} else {
+			entries = read.m
+		}
 	}
-	return len(read.m)
+	n := 0
+	for _, e := range entries {
+		if _, ok := e.load(); ok {
+			n++
+		}
+	}
+	return n
 }
 
 func (m *ValueMap) Clear() {
